@@ -17,6 +17,7 @@ def dispatch : String → Option (String → String)
   | "C05" => some Lower.runLine
   | "C06" => some Rename.runLine
   | "C08" => some JsLayout.runLine
+  | "C09" => some Idents.runLine
   | "C11" => some EnumGen.runLine
   | "C12" => some Write.runLine
   | "C17" => some Config.runLine
